@@ -8,6 +8,7 @@ import (
 	"io"
 	"net"
 	"runtime"
+	"strings"
 
 	"nhooyr.io/websocket"
 	"verif/fw"
@@ -51,7 +52,7 @@ type c08Case struct {
 
 func c08CompMode(comp string) string {
 	switch comp {
-	case "zeros":
+	case "zeros", "takeover-text":
 		return "takeover"
 	case "no-takeover", "bfinal", "stored-open":
 		return "no-takeover"
@@ -88,6 +89,17 @@ func c08Payload(comp string, size, idx int) []byte {
 		b := make([]byte, size)
 		for i := range b {
 			b[i] = "the quick brown fox jumps over the lazy dog 0123456789\n"[(i+i/97+idx)%55]
+		}
+		return b
+	}
+	if comp == "takeover-text" {
+		// incompressible at short range; every other message has the same content, so a
+		// sender that keeps its context refers back across the message in between
+		b := make([]byte, size)
+		x := uint32(77 + idx%2)
+		for i := range b {
+			x = x*1664525 + 1013904223
+			b[i] = byte(x >> 24)
 		}
 		return b
 	}
@@ -208,7 +220,12 @@ func c08ReadNetConn(nc net.Conn, size int, limit int64) (r c08Reading) {
 // 40-64 KiB when the pools are cold; append doubling of the harness itself).
 func c08Bound(delivered int) uint64 { return 4*uint64(delivered) + 1<<20 }
 
-func c08One(c *fw.Ctx, cs c08Case) {
+func c08One(c *fw.Ctx, cs c08Case) { c08OneP(c, cs, "C08") }
+
+// c08OneP reports under prop (C14 runs the context-takeover sequences: each side
+// decodes everything the other compresses, whatever read limit is set).
+func c08OneP(c *fw.Ctx, cs c08Case, prop string) {
+	pc := func(class string) string { return prop + strings.TrimPrefix(class, "C08") }
 	c.Eval()
 	if cs.Kind == "declared-over-limit" {
 		c08DeclaredOverLimit(c, cs)
@@ -263,7 +280,7 @@ func c08One(c *fw.Ctx, cs c08Case) {
 		}
 		if m.SetLimit {
 			if p := fw.Recover(func() { conn.SetReadLimit(m.Limit) }); p != "" {
-				c.Violate("C08/panic", desc+": SetReadLimit panicked: "+p, cs)
+				c.Violate(pc("C08/panic"), desc+": SetReadLimit panicked: "+p, cs)
 				return
 			}
 		}
@@ -275,7 +292,7 @@ func c08One(c *fw.Ctx, cs c08Case) {
 			r = c08ReadOne(conn, cs.API)
 		}
 		if r.panicked != "" {
-			c.Violate("C08/panic", fmt.Sprintf("%s: message %d: %s panicked: %s", desc, i, cs.API, r.panicked), cs)
+			c.Violate(pc("C08/panic"), fmt.Sprintf("%s: message %d: %s panicked: %s", desc, i, cs.API, r.panicked), cs)
 			return
 		}
 		if r.guardFire {
@@ -292,24 +309,24 @@ func c08One(c *fw.Ctx, cs c08Case) {
 		}
 		if within {
 			if r.err != nil || !bytes.Equal(r.data, payloads[i]) {
-				c.Violate("C08/within-limit-not-delivered/"+cs.Comp, fmt.Sprintf("%s: %s is within the limit but was read as %d bytes (identical prefix: %d), err=%v", desc, where, len(r.data), c08CommonPrefix(r.data, payloads[i]), r.err), cs)
+				c.Violate(pc("C08/within-limit-not-delivered/")+cs.Comp, fmt.Sprintf("%s: %s is within the limit but was read as %d bytes (identical prefix: %d), err=%v", desc, where, len(r.data), c08CommonPrefix(r.data, payloads[i]), r.err), cs)
 				return
 			}
 		} else {
 			if r.err == nil {
-				c.Violate("C08/over-limit-reported-complete/"+cs.Comp+"/"+m.Framing, fmt.Sprintf("%s: %s exceeds the limit but the read ended cleanly after %d bytes", desc, where, len(r.data)), cs)
+				c.Violate(pc("C08/over-limit-reported-complete/")+cs.Comp+"/"+m.Framing, fmt.Sprintf("%s: %s exceeds the limit but the read ended cleanly after %d bytes", desc, where, len(r.data)), cs)
 				return
 			}
 			if r.afterErr != "" {
-				c.Violate("C08/over-limit-reported-complete/"+cs.Comp+"/read-after-failure", fmt.Sprintf("%s: %s exceeds the limit and its read failed (%v), but the next Read on the same reader %s", desc, where, r.err, r.afterErr), cs)
+				c.Violate(pc("C08/over-limit-reported-complete/")+cs.Comp+"/read-after-failure", fmt.Sprintf("%s: %s exceeds the limit and its read failed (%v), but the next Read on the same reader %s", desc, where, r.err, r.afterErr), cs)
 				return
 			}
 			if int64(len(r.data)) > L+1 {
-				c.Violate("C08/over-limit-too-many-bytes", fmt.Sprintf("%s: %s: %d bytes were handed to the caller before the failure, more than limit+1 = %d (err=%v)", desc, where, len(r.data), L+1, r.err), cs)
+				c.Violate(pc("C08/over-limit-too-many-bytes"), fmt.Sprintf("%s: %s: %d bytes were handed to the caller before the failure, more than limit+1 = %d (err=%v)", desc, where, len(r.data), L+1, r.err), cs)
 				return
 			}
 			if !mxHasCloseStatus(t.Log()[logBefore:], 1009) {
-				c.Violate("C08/over-limit-no-1009", fmt.Sprintf("%s: %s: the read failed (%v) but no Close frame with status 1009 was written; Close frames written: %s", desc, where, r.err, c08Closes(t.Log()[logBefore:])), cs)
+				c.Violate(pc("C08/over-limit-no-1009"), fmt.Sprintf("%s: %s: the read failed (%v) but no Close frame with status 1009 was written; Close frames written: %s", desc, where, r.err, c08Closes(t.Log()[logBefore:])), cs)
 				return
 			}
 		}
@@ -318,7 +335,7 @@ func c08One(c *fw.Ctx, cs c08Case) {
 			if cs.Comp != "off" {
 				kind = "ratio"
 			}
-			c.Violate("C08/memory-exceeds-bound/"+kind, fmt.Sprintf("%s: %s: reading allocated %d bytes (TotalAlloc delta) for %d bytes delivered; bound 4x+1MiB = %d", desc, where, r.alloc, len(r.data), c08Bound(len(r.data))), cs)
+			c.Violate(pc("C08/memory-exceeds-bound/")+kind, fmt.Sprintf("%s: %s: reading allocated %d bytes (TotalAlloc delta) for %d bytes delivered; bound 4x+1MiB = %d", desc, where, r.alloc, len(r.data), c08Bound(len(r.data))), cs)
 			return
 		}
 		c.OutcomeStr(fmt.Sprintf("%s %s %s %s L=%d size=%d within=%v got=%d", cs.Comp, mxRole(cs.Client), cs.API, m.Framing, L, m.Size, within, len(r.data)))
@@ -510,6 +527,21 @@ func c08Cases(thorough bool) []c08Case {
 			}
 		}
 	}
+	// context takeover with a small limit: messages A, B, A, A each exactly at the limit; the
+	// third and fourth refer back further than the limit (but within the 32 KiB window)
+	for _, client := range []bool{false, true} {
+		for _, api := range c08APIs {
+			for _, L := range []int64{1024, 4096, 10000} {
+				for _, fr := range []string{"one", "split-at-limit"} {
+					var ms []c08Msg
+					for i := 0; i < 4; i++ {
+						ms = append(ms, c08Msg{Size: int(L), Framing: fr, SetLimit: i == 0, Limit: L})
+					}
+					out = append(out, c08Case{Kind: "limit", Client: client, Comp: "takeover-text", API: api, Msgs: ms})
+				}
+			}
+		}
+	}
 	// lying headers
 	for _, comp := range []string{"off", "zeros"} {
 		for _, client := range []bool{false, true} {
@@ -564,7 +596,41 @@ func c08Run(c *fw.Ctx, shard, nshards int) {
 	c.Bound("alloc_bound", "TotalAlloc delta <= 4 x delivered + 1 MiB")
 }
 
+func c14LimitCases() []c08Case {
+	var out []c08Case
+	for _, cs := range c08Cases(false) {
+		if cs.Comp == "takeover-text" {
+			out = append(out, cs)
+		}
+	}
+	return out
+}
+
 func init() {
+	fw.Register(fw.Part{
+		Prop: "C14", Name: "limited",
+		Units: func(tier string) []fw.Unit {
+			return []fw.Unit{{ID: "takeover-sequences", Run: func(c *fw.Ctx) {
+				cases := c14LimitCases()
+				for _, cs := range cases {
+					c08OneP(c, cs, "C14")
+				}
+				c.AddStates(int64(len(cases)))
+				c.AddTransitions(int64(4 * len(cases)))
+				c.AddTraces(int64(len(cases)))
+				c.Bound("limited_takeover_sequences", len(cases))
+				c.Sample(cases[0])
+			}}}
+		},
+		Replay: func(c *fw.Ctx, data json.RawMessage) {
+			var cs c08Case
+			if json.Unmarshal(data, &cs) != nil {
+				c.EngineError("bad replay data")
+				return
+			}
+			c08OneP(c, cs, "C14")
+		},
+	})
 	fw.Register(fw.Part{
 		Prop: "C08", Name: "limit",
 		Units: func(tier string) []fw.Unit { return fw.Shards("grid", 16, c08Run) },
